@@ -46,30 +46,26 @@ open Aergo.Json Aergo.Admit
 
 /-! ### Tie T: the regenerated inventory of partial operations -/
 
-/-- Number of occurrences the model's table records for a key. -/
-def tableCount (k : String) : Option Nat := ((openOps ++ guardedInSource).find? (·.1 == k)).map (·.2.1)
-
 set_option maxRecDepth 100000 in
 /-- Every partial operation (index, slice, unchecked assertion, explicit panic, division, nil-able arithmetic
 argument, map write) in a function REACHABLE from the admission / execution entry points of the current source,
-which the extractor cannot discharge inside its own function, has an entry in the model's table with the same
-number of occurrences — as a trap carried by the theorems below, or with its stated reason.  A new unguarded
-operation anywhere on the path (also in a new helper, a new command, a callee) breaks this theorem. -/
+which the extractor cannot discharge inside its own function, is an entry of the model's table, with the same
+number of occurrences — as a trap carried by the theorems below, or with its stated reason — and the table has no
+other entry.  A new unguarded operation anywhere on the path (also in a new helper, a new command, a callee)
+breaks this theorem before any payload is found. -/
 theorem every_open_op_accounted :
-    Aergo.Gen.PartialOps.open_.all (fun kn => tableCount kn.1 == some kn.2) = true := by
-  decide +kernel
+    Aergo.Gen.PartialOps.open_ = openOps.map (fun k => (k.1, k.2.1)) := by rfl
 
-/-- The syntactic discharge rules the extractor used are the documented ones. -/
+/-- The syntactic discharge rules the extractor used are among the documented ones. -/
 theorem auto_rules_known :
-    Aergo.Gen.PartialOps.auto.all (fun a => ["map", "maplocal", "fullslice", "lenguard", "loopbound", "constdiv", "nilinit",
-      "stringer", "sortidx"].contains a.2.1) = true := by
-  decide +kernel
+    Aergo.Gen.PartialOps.autoRules.all (fun r => ["map", "maplocal", "fullslice", "lenguard", "loopbound", "constdiv", "nilinit",
+      "stringer", "sortidx"].contains r) = true := by
+  decide
 
 set_option maxRecDepth 100000 in
 /-- Every dispatch on a command name, system operation, transaction type or recipient in the reachable code has
 exactly the case labels the model branches on: a new command or type is noticed before any payload is found. -/
-theorem dispatch_known : Aergo.Gen.PartialOps.dispatch.all (fun d => knownDispatch.contains d) = true := by
-  decide +kernel
+theorem dispatch_known : Aergo.Gen.PartialOps.dispatch = knownDispatch := by rfl
 
 /-- `allSites` lists every constructor of `Site`. -/
 theorem allSites_complete (s : Site) : s ∈ allSites := by cases s <;> decide
